@@ -11,6 +11,8 @@ import UVerifProofs.Lemmas.CfloatSubCore
 import UVerifProofs.Lemmas.CfloatArith
 import UVerifProofs.Lemmas.CfloatDivCore
 import UVerifProofs.Lemmas.CfloatUnderflow
+import UVerifProofs.Lemmas.CfloatAll
+import UVerifProofs.Lemmas.CfloatDegenerate
 open UVerif UVerif.Cfloat
 
 /-- an operand the operator prologues decide: NaN, infinity or a (signed) zero -/
@@ -442,15 +444,15 @@ theorem C02_convert_round_normal (c : Cfg) (hv : c.valid = true) (o : Op) (sign 
     exact mul_ne_zero h0 (mul_ne_zero (ne_of_gt hs) (ne_of_gt hp))
   rw [if_neg hne]; exact h2
 
-/-- full statement of convert's correctness for every finite non-zero triple (open: subnormal results, the
-    overflow cusp; false on the > 64-bit path — D5 — and for saturating configurations — D4) -/
+/-- full statement of convert's correctness for every finite non-zero triple (false on the > 64-bit path — D5 — and
+    for saturating configurations — D4, sat∧sup; outside those classes it is `C02_convert_partial` below) -/
 def C02_convert_full : Prop :=
   ∀ (c : Cfg) (o : Op) (sign : Bool) (scale : Int) (sig : Nat), c.valid = true →
     2 ^ (o.radix c.fbits) ≤ sig → sig < 2 ^ (o.bfbits c.fbits) →
     IeeeNearest c ((if sign then -1 else 1) * ((sig : ℚ) * pow2 (scale - (o.radix c.fbits : Int))))
       (convertFinite c o sign scale sig)
 
-/-- decidable side condition of `C02_mul_partial`: the product's exponent stays in the normal range, at least two
+/-- decidable side condition of `C02_mul_normal_partial`: the product's exponent stays in the normal range, at least two
     below the all-ones exponent -/
 def C02_mul_inRange (c : Cfg) (a b : Nat) : Bool :=
   let sc : Int := ((c.expOf a : Int) - c.bias) + ((c.expOf b : Int) - c.bias)
@@ -462,7 +464,7 @@ def C02_mul_inRange (c : Cfg) (a b : Nat) : Bool :=
     bits) and all finite operands with non-zero exponent field (normals, and supernormals when present) whose
     product lands in the normal range below the overflow cusp, operator* returns an encoding that satisfies the
     IEEE rounding relation for the exact product — exact product, one rounding. -/
-theorem C02_mul_partial (c : Cfg) (hv : c.valid = true) (a b : Nat)
+theorem C02_mul_normal_partial (c : Cfg) (hv : c.valid = true) (a b : Nat)
     (hnarrow : 2 * c.fbits + 2 < 65)
     (hna : normalOperand c a = true) (hnb : normalOperand c b = true)
     (hr : C02_mul_inRange c a b = true) :
@@ -651,14 +653,14 @@ theorem C02_add_opp_sign_partial (c : Cfg) (hv : c.valid = true) (a b : Nat)
     satisfies c (expectOp "add" (cfVal c a) (cfVal c b)) (add c a b) = true :=
   add_opp_sign_partial c hv a b hnarrow hna hnb hsign hr
 
-/-- side condition of `C02_add_partial` for any combination of signs -/
+/-- side condition of `C02_add_normal_partial` for any combination of signs -/
 def C02_add_inRange_all (c : Cfg) (a b : Nat) : Bool := addInRangeAll c a b
 
 /-- **C02 for addition** (partial, all sign combinations): every configuration with fbits ≤ 58 (≤ 64-bit path), all
     finite operands with non-zero exponent fields (normals, supernormals), result zero (exact cancellation) or in
     the normal range at least two below the all-ones exponent: operator+ satisfies the property's expectation.
     Open: subnormal operands / results, the two top binades (overflow cusp), the > 64-bit path (false there, D5). -/
-theorem C02_add_partial (c : Cfg) (hv : c.valid = true) (a b : Nat)
+theorem C02_add_normal_partial (c : Cfg) (hv : c.valid = true) (a b : Nat)
     (hnarrow : c.fbits + 6 < 65)
     (hna : normalOperand c a = true) (hnb : normalOperand c b = true)
     (hr : C02_add_inRange_all c a b = true) :
@@ -668,7 +670,7 @@ theorem C02_add_partial (c : Cfg) (hv : c.valid = true) (a b : Nat)
 /-- **C02 for subtraction** (partial): a − b is a + (−b) in the code and in the property's table
     (`C02_expect_sub_eq_add_neg`), so the addition theorem carries over with the side condition evaluated on the
     negated subtrahend. -/
-theorem C02_sub_partial (c : Cfg) (hv : c.valid = true) (a b : Nat)
+theorem C02_sub_normal_partial (c : Cfg) (hv : c.valid = true) (a b : Nat)
     (hnarrow : c.fbits + 6 < 65)
     (hna : normalOperand c a = true) (hnb : normalOperand c b = true)
     (hr : C02_add_inRange_all c a (negate c b) = true) :
@@ -707,7 +709,7 @@ theorem C02_div_no_tie_without_equality (fb A B q e : Nat) (hB1 : 2 ^ fb ≤ B) 
     (e * 2 ^ (2 * fb + 2) < q ↔ e * 2 ^ (2 * fb + 2) * B < A * 2 ^ (3 * fb + 4)) :=
   div_side fb A B q e hB1 hB2 h1 h2 h3
 
-/-- side condition of `C02_div_partial`: the quotient's exponent (the difference of the operand exponents, minus one
+/-- side condition of `C02_div_normal_partial`: the quotient's exponent (the difference of the operand exponents, minus one
     when the significand quotient is below 1) stays in the normal range, at least two below the all-ones exponent -/
 def C02_div_inRange (c : Cfg) (a b : Nat) : Bool :=
   let sc : Int := ((c.expOf a : Int) - c.bias) - ((c.expOf b : Int) - c.bias)
@@ -717,7 +719,7 @@ def C02_div_inRange (c : Cfg) (a b : Nat) : Bool :=
     finite operands with non-zero exponent fields, quotient exponent in the normal range below the top binades:
     operator/ returns the IEEE rounding of the exact quotient — one rounding, although the restoring loop's low
     quotient bits are computed with truncated dividers. -/
-theorem C02_div_partial (c : Cfg) (hv : c.valid = true) (a b : Nat)
+theorem C02_div_normal_partial (c : Cfg) (hv : c.valid = true) (a b : Nat)
     (hnarrow : 3 * c.fbits + 6 < 65)
     (hna : normalOperand c a = true) (hnb : normalOperand c b = true)
     (hr : C02_div_inRange c a b = true) :
@@ -799,3 +801,223 @@ theorem C02_mul_underflow_partial (c : Cfg) (hv : c.valid = true) (hes2 : 2 ≤ 
     exact convert_flush c hv hs .mul _ _ _ hp (by simp only [Op.radix]; exact hr)
   · rw [hs] at hr; simp only [if_true] at hr
     exact convert_underflow c hv hs hes2 hes20 .mul _ _ _ hp (by simp only [Op.radix]; omega) (by simp only [Op.radix]; exact hr)
+
+
+/-! ### all four operators, all operands, all result ranges -/
+
+/-- every configuration except es = 1 with a single fraction bit: cfloat<3,1,bt,1,1,·> has the encodings 0, the
+    subnormal 1, inf and NaN only — no normal and no finite supernormal value -/
+def C02_notDegenerate (c : Cfg) : Prop := Gen c
+
+
+/-- a non-special operand is a finite non-zero one -/
+theorem C02_special_or_finite (c : Cfg) (hv : c.valid = true) (a : Nat) :
+    finiteNZ c a = true ∨ (C02_isSpecial (cfVal c a) = true ∧
+      ((∃ s, cfVal c a = .nan s) ∨ (∃ s, cfVal c a = .inf s) ∨ cfVal c a = .fin (c.signOf a) 0)) := by
+  by_cases h : finiteNZ c a = true
+  · exact Or.inl h
+  · right
+    have hs := special_of_not_finiteNZ c hv a h
+    refine ⟨?_, hs⟩
+    rcases hs with ⟨s, e⟩ | ⟨s, e⟩ | e <;> rw [e] <;> simp [C02_isSpecial]
+
+/-- **C02 for addition, every operand pair** (es ≤ 20): special rows, a zero operand, and for
+    two finite non-zero operands (normal, supernormal, subnormal) every result range, outside the recorded classes -/
+theorem C02_add_partial (c : Cfg) (hv : c.valid = true) (hg : C02_notDegenerate c) (hes20 : c.es ≤ 20) (a b : Nat)
+    (ha : a < 2 ^ c.nbits) (hb : b < 2 ^ c.nbits) (hbt : 0 < c.bt)
+    (hcls : arithClass c "add" a b (expectOp "add" (cfVal c a) (cfVal c b)) = "") :
+    satisfies c (expectOp "add" (cfVal c a) (cfVal c b)) (add c a b) = true := by
+  rcases C02_special_or_finite c hv a with hfa | ⟨hsa, hca⟩
+  · rcases C02_special_or_finite c hv b with hfb | ⟨hsb, hcb⟩
+    · obtain ⟨T, v, hexp, hadd, hT⟩ := add_stage c hv a b hfa hfb
+      rw [hexp] at hcls ⊢
+      rw [hadd]
+      refine finish_triple c hv hg hes20 hbt .add T v (by simp only [Op.radix]; omega) hT ?_ ?_ ?_
+      · intro hne; rw [if_neg hne] at hcls; exact (arithClass_real c "add" a b v hfa hfb hcls).1
+      · intro hne; rw [if_neg hne] at hcls; exact (arithClass_real c "add" a b v hfa hfb hcls).2.1
+      · intro hne; rw [if_neg hne] at hcls; exact (arithClass_real c "add" a b v hfa hfb hcls).2.2
+    · rcases hcb with ⟨s, e⟩ | ⟨s, e⟩ | e
+      · refine C02_special_add c hv a b ha hb (Or.inr hsb) ?_
+        rw [e]; cases cfVal c a <;> simp [expectOp, C02_notReal]
+      · refine C02_special_add c hv a b ha hb (Or.inr hsb) ?_
+        rw [e]; cases cfVal c a <;> simp [expectOp, C02_notReal]
+        split_ifs <;> rfl
+      · exact add_zero_right c hv hg a b ha hfa e
+  · rcases hca with ⟨s, e⟩ | ⟨s, e⟩ | e
+    · refine C02_special_add c hv a b ha hb (Or.inl hsa) ?_
+      rw [e]; simp [expectOp, C02_notReal]
+    · refine C02_special_add c hv a b ha hb (Or.inl hsa) ?_
+      rw [e]; cases cfVal c b <;> simp [expectOp, C02_notReal]
+      split_ifs <;> rfl
+    · rcases C02_special_or_finite c hv b with hfb | ⟨hsb, hcb⟩
+      · exact add_zero_left c hv hg a b hb e hfb
+      · refine C02_special_add c hv a b ha hb (Or.inl hsa) ?_
+        rcases hcb with ⟨s, e'⟩ | ⟨s, e'⟩ | e'
+        · rw [e, e']; simp [expectOp, C02_notReal]
+        · rw [e, e']; simp [expectOp, C02_notReal]
+        · rw [e, e']; simp [expectOp, C02_notReal]
+
+/-- **C02 for subtraction, every operand pair**: a − b is a + (−b) in the code and in the property's table -/
+theorem C02_sub_partial (c : Cfg) (hv : c.valid = true) (hg : C02_notDegenerate c) (hes20 : c.es ≤ 20) (a b : Nat)
+    (ha : a < 2 ^ c.nbits) (hb : b < 2 ^ c.nbits) (hbt : 0 < c.bt)
+    (hcls : arithClass c "sub" a b (expectOp "sub" (cfVal c a) (cfVal c b)) = "") :
+    satisfies c (expectOp "sub" (cfVal c a) (cfVal c b)) (sub c a b) = true := by
+  by_cases hn : isNan c b = true
+  · have e1 : (cfVal c b).isNan = true := by rw [cfVal_isNan c hv, hn]
+    refine C02_special_sub c hv a b ha hb (Or.inr ?_) ?_
+    · cases hb' : cfVal c b <;> rw [hb'] at e1 <;> simp_all [C02_isSpecial, Val.isNan]
+    · cases hb' : cfVal c b <;> rw [hb'] at e1 <;> simp_all [Val.isNan]
+      cases cfVal c a <;> simp [expectOp, C02_notReal]
+  · have hsub : sub c a b = add c a (negate c b) := by unfold sub; rw [if_neg hn]
+    have nf := negate_facts c hv b
+    rw [arithClass_sub c hv] at hcls
+    rw [C02_expect_sub_eq_add_neg, ← cfVal_negate c hv] at hcls ⊢
+    rw [hsub]
+    exact C02_add_partial c hv hg hes20 a (negate c b) ha nf.1 hbt hcls
+
+/-- a real (to be rounded) expectation of × or ÷ needs two finite non-zero operands -/
+theorem C02_real_needs_finite (c : Cfg) (hv : c.valid = true) (a b : Nat) :
+    (C02_notReal (expectOp "mul" (cfVal c a) (cfVal c b)) = false → finiteNZ c a = true ∧ finiteNZ c b = true) ∧
+    (C02_notReal (expectOp "div" (cfVal c a) (cfVal c b)) = false → finiteNZ c a = true ∧ finiteNZ c b = true) := by
+  rcases C02_special_or_finite c hv a with hfa | ⟨_, hca⟩
+  · rcases C02_special_or_finite c hv b with hfb | ⟨_, hcb⟩
+    · exact ⟨fun _ => ⟨hfa, hfb⟩, fun _ => ⟨hfa, hfb⟩⟩
+    · obtain ⟨_, _, _, _, _, va, _⟩ := operand_facts c hv a hfa
+      rw [va]
+      rcases hcb with ⟨s, e⟩ | ⟨s, e⟩ | e <;> rw [e] <;> constructor <;> intro h <;> exfalso <;>
+        simp [expectOp, C02_notReal] at h <;> (try split_ifs at h) <;> simp_all
+  · rcases hca with ⟨s, e⟩ | ⟨s, e⟩ | e <;> rw [e] <;> constructor <;> intro h <;> exfalso <;>
+      (cases hb' : cfVal c b <;> rw [hb'] at h <;> simp [expectOp, C02_notReal] at h <;> (try split_ifs at h) <;> simp_all)
+
+/-- **C02 for multiplication, every operand pair** -/
+theorem C02_mul_partial (c : Cfg) (hv : c.valid = true) (hg : C02_notDegenerate c) (hes20 : c.es ≤ 20) (a b : Nat)
+    (ha : a < 2 ^ c.nbits) (hb : b < 2 ^ c.nbits) (hbt : 0 < c.bt)
+    (hcls : arithClass c "mul" a b (expectOp "mul" (cfVal c a) (cfVal c b)) = "") :
+    satisfies c (expectOp "mul" (cfVal c a) (cfVal c b)) (mul c a b) = true := by
+  by_cases hnr : C02_notReal (expectOp "mul" (cfVal c a) (cfVal c b)) = true
+  · exact C02_special_mul c hv a b ha hb hnr
+  · obtain ⟨hfa, hfb⟩ := (C02_real_needs_finite c hv a b).1 (by simpa using hnr)
+    obtain ⟨_, hfb1, _, _⟩ := valid_facts c hv
+    obtain ⟨T, v, hne, hexp, hmul, hT⟩ := mul_stage c hv a b hfa hfb
+    rw [hexp] at hcls ⊢
+    rw [hmul]
+    obtain ⟨k0, k1, k2⟩ := arithClass_real c "mul" a b v hfa hfb hcls
+    have := finish_triple c hv hg hes20 hbt .mul T v (by simp only [Op.radix]; omega) hT (fun _ => k0) (fun _ => k1) (fun _ => k2)
+    rwa [if_neg hne] at this
+
+/-- **C02 for division, every operand pair** -/
+theorem C02_div_partial (c : Cfg) (hv : c.valid = true) (hg : C02_notDegenerate c) (hes20 : c.es ≤ 20) (a b : Nat)
+    (ha : a < 2 ^ c.nbits) (hb : b < 2 ^ c.nbits) (hbt : 0 < c.bt)
+    (hcls : arithClass c "div" a b (expectOp "div" (cfVal c a) (cfVal c b)) = "") :
+    satisfies c (expectOp "div" (cfVal c a) (cfVal c b)) (div c a b) = true := by
+  by_cases hnr : C02_notReal (expectOp "div" (cfVal c a) (cfVal c b)) = true
+  · exact C02_special_div c hv a b ha hb hnr
+  · obtain ⟨hfa, hfb⟩ := (C02_real_needs_finite c hv a b).2 (by simpa using hnr)
+    obtain ⟨T, v, hne, hexp, hdiv, hT⟩ := div_stage c hv a b hfa hfb
+    rw [hexp] at hcls ⊢
+    rw [hdiv]
+    obtain ⟨k0, k1, k2⟩ := arithClass_real c "div" a b v hfa hfb hcls
+    have := finish_triple c hv hg hes20 hbt .div T v (by simp only [Op.radix]; omega) hT (fun _ => k0) (fun _ => k1) (fun _ => k2)
+    rwa [if_neg hne] at this
+
+/-- **convert(blocktriple → cfloat), every exponent range, both branches**: for every finite non-zero triple (leading
+    bit at or above the radix point) the encoding is in range and satisfies the rounding relation for the exact value
+    ± sig·2^(scale − radix) — underflow incl. the half-minpos case, flush to zero, subnormal, normal, the two binades
+    next to the inf/NaN encodings, overflow — provided (D5) on the > 64-bit branch the value is exactly representable,
+    (sat∧sup) a saturating configuration with supernormals does not overflow, and (D4) a saturating configuration
+    without supernormals does not round onto the inf pattern. `C02_convert_full` without these three classes. -/
+theorem C02_convert_partial (c : Cfg) (hv : c.valid = true) (hg : C02_notDegenerate c) (hes20 : c.es ≤ 20) (hbt : 0 < c.bt)
+    (o : Op) (sign : Bool) (scale : Int) (sig : Nat) (hsig : 2 ^ (o.radix c.fbits) ≤ sig)
+    (hw : ¬ o.bfbits c.fbits < 65 → exactlyRepresentable c ((sig : ℚ) * pow2 (scale - (o.radix c.fbits : Int))) = true)
+    (hss : c.sat = true → c.sup = true → overflows c ((sig : ℚ) * pow2 (scale - (o.radix c.fbits : Int))) = false)
+    (hsn : c.sat = true → c.sup = false → roundsToInfPattern c ((sig : ℚ) * pow2 (scale - (o.radix c.fbits : Int))) = false) :
+    convertFinite c o sign scale sig < 2 ^ c.nbits ∧
+    IeeeNearest c ((if sign then -1 else 1) * ((sig : ℚ) * pow2 (scale - (o.radix c.fbits : Int))))
+      (convertFinite c o sign scale sig) := by
+  obtain ⟨_, hfb, _, _⟩ := valid_facts c hv
+  have hrad : c.fbits + 1 ≤ o.radix c.fbits := by cases o <;> simp only [Op.radix] <;> omega
+  have hRL := roundsLike_of_sameSide c.fbits (o.radix c.fbits) scale sig (sig : ℚ) 0 hsig (sameSide_exact sig 0) (by omega)
+  obtain ⟨r1, r2⟩ := convert_master_all c hv hg hes20 hbt o sign scale sig _ hsig (by omega) hRL hw hss hsn
+  refine ⟨r1, ?_⟩
+  have hXpos : 0 < (sig : ℚ) * pow2 (scale - (o.radix c.fbits : Int)) := lt_of_lt_of_le (pow2_pos _) hRL.1
+  unfold IeeeNearest
+  rw [if_neg (absR_pos_mul sign _ hXpos).2.2]
+  exact r2
+
+/-- the statement of `C02_arith_partial` for one configuration with 3-bit encodings, as a decidable proposition -/
+def C02_arith_stmt3 (c : Cfg) : Prop :=
+  ∀ a < 8, ∀ b < 8, ∀ op ∈ ["add", "sub", "mul", "div"],
+    arithClass c op a b (expectOp op (cfVal c a) (cfVal c b)) = "" →
+    satisfies c (expectOp op (cfVal c a) (cfVal c b)) (arithOp op c a b) = true
+
+instance (c : Cfg) : Decidable (C02_arith_stmt3 c) := by unfold C02_arith_stmt3; infer_instance
+
+/-- the one configuration shape outside `C02_notDegenerate`: cfloat<3,1,·,sub,sup,sat> (encodings ±0, ±1, ±inf, NaN),
+    by enumeration of all 8 × 8 × 4 operand/operator combinations for both values of `sat` -/
+theorem C02_arith_degenerate :
+    C02_arith_stmt3 ⟨3, 1, 8, true, true, false⟩ ∧ C02_arith_stmt3 ⟨3, 1, 8, true, true, true⟩ := by
+  decide +kernel
+
+/-- **C02, all four operators in one statement** (es ≤ 20 — es < 21 is a static_assert of the class —, a block type
+    of at least one bit): for every valid configuration, every pair of encodings — NaNs, infinities, zeros, normals,
+    supernormals and subnormals — and every result range (underflow, flush, subnormal, normal, the two binades next
+    to the inf/NaN encodings, overflow; both branches of convert), the model's result satisfies the property's
+    expectation, under ONE decidable side condition on the inputs: `arithClass … = ""`, i.e. the operands are outside
+    the three recorded input classes of known_findings.json — cfloat.convert.wide_path (D5),
+    cfloat.convert.sat_nosup_cusp (D4) and cfloat.sat_sup.maxpos_is_inf. `arithClass` is the function the driver
+    classifies transcript lines with. -/
+theorem C02_arith_partial (c : Cfg) (hv : c.valid = true) (hes20 : c.es ≤ 20) (hbt : 0 < c.bt)
+    (op : String) (hop : op = "add" ∨ op = "sub" ∨ op = "mul" ∨ op = "div") (a b : Nat)
+    (ha : a < 2 ^ c.nbits) (hb : b < 2 ^ c.nbits)
+    (hcls : arithClass c op a b (expectOp op (cfVal c a) (cfVal c b)) = "") :
+    satisfies c (expectOp op (cfVal c a) (cfVal c b)) (arithOp op c a b) = true := by
+  by_cases hg : C02_notDegenerate c
+  · rcases hop with rfl | rfl | rfl | rfl
+    · exact C02_add_partial c hv hg hes20 a b ha hb hbt hcls
+    · exact C02_sub_partial c hv hg hes20 a b ha hb hbt hcls
+    · exact C02_mul_partial c hv hg hes20 a b ha hb hbt hcls
+    · exact C02_div_partial c hv hg hes20 a b ha hb hbt hcls
+  · -- es = 1 with one fraction bit: nbits = 3, subnormals and supernormals present; the block type is never read
+    obtain ⟨hes, hfb, h3, _⟩ := valid_facts c hv
+    have hes1 : c.es = 1 := by unfold C02_notDegenerate Gen at hg; omega
+    have hfb1 : c.fbits = 1 := by unfold C02_notDegenerate Gen at hg; omega
+    obtain ⟨hsub, hsup, _, _⟩ := es1_facts c hv hes1
+    have hn3 : c.nbits = 3 := by omega
+    have hmem : op ∈ ["add", "sub", "mul", "div"] := by rcases hop with rfl | rfl | rfl | rfl <;> simp
+    obtain ⟨nbits, es, bt, sub, sup, sat⟩ := c
+    simp only at hes1 hsub hsup hn3
+    subst hes1 hsub hsup hn3
+    have ha8 : a < 8 := by simpa using ha
+    have hb8 : b < 8 := by simpa using hb
+    rw [deg_cfVal_bt, deg_cfVal_bt, deg_arithClass_bt] at hcls
+    rw [deg_cfVal_bt, deg_cfVal_bt, deg_arithOp_bt, deg_satisfies_bt]
+    cases sat
+    · exact C02_arith_degenerate.1 a ha8 b hb8 op hmem hcls
+    · exact C02_arith_degenerate.2 a ha8 b hb8 op hmem hcls
+
+/-- non-vacuity: in cfloat<8,3,sub> the side condition holds for a subnormal × normal product that stays subnormal,
+    for a sum in the top binade, and for an overflowing quotient; in cfloat<5,2,sat> (no supernormals) it fails
+    exactly on the D4 witness 2.0 + 3.5 -/
+example : let c : Cfg := { nbits := 8, es := 3, sub := true }
+    c.valid = true ∧
+    arithClass c "mul" 0x03 0x35 (expectOp "mul" (cfVal c 0x03) (cfVal c 0x35)) = "" ∧
+    arithClass c "add" 0x6c 0x68 (expectOp "add" (cfVal c 0x6c) (cfVal c 0x68)) = "" ∧
+    arithClass c "div" 0x6c 0x03 (expectOp "div" (cfVal c 0x6c) (cfVal c 0x03)) = "" ∧
+    (let d : Cfg := { nbits := 5, es := 2, sat := true }
+     arithClass d "add" 0x8 0xb (expectOp "add" (cfVal d 0x8) (cfVal d 0xb)) = "cfloat.convert.sat_nosup_cusp") := by
+  decide +kernel
+
+/-- non-vacuity, es = 1 (cfloat<6,1,sub,sup>: subnormals 0 … 15/8, then supernormals from 2; no normal binade):
+    the hypotheses hold for 0.75 + 0.875 = 1.625 (subnormal operands and result) and for 1.875 + 1.875 = 3.75, which
+    rounds onto the inf pattern of the supernormal binade and overflows to +inf; on the > 64-bit path of single
+    precision the exactly representable quotient 1.0 / 2.0 is outside the class cfloat.convert.wide_path, 1.0 / 3.0
+    is inside -/
+example : let c : Cfg := { nbits := 6, es := 1, sub := true, sup := true }
+    c.valid = true ∧ (2 ≤ c.es ∨ 2 ≤ c.fbits) ∧
+    arithClass c "add" 0x06 0x07 (expectOp "add" (cfVal c 0x06) (cfVal c 0x07)) = "" ∧ add c 0x06 0x07 = 0x0d ∧
+    arithClass c "add" 0x0f 0x0f (expectOp "add" (cfVal c 0x0f) (cfVal c 0x0f)) = "" ∧ add c 0x0f 0x0f = 0x1e ∧
+    (let s : Cfg := { nbits := 32, es := 8, bt := 32, sub := true }
+     arithClass s "div" 0x3f800000 0x40000000 (expectOp "div" (cfVal s 0x3f800000) (cfVal s 0x40000000)) = "" ∧
+     div s 0x3f800000 0x40000000 = 0x3f000000 ∧
+     arithClass s "div" 0x3f800000 0x40400000 (expectOp "div" (cfVal s 0x3f800000) (cfVal s 0x40400000)) = "cfloat.convert.wide_path") := by
+  decide +kernel
